@@ -353,6 +353,63 @@ pub fn run(cx: &mut Ctx) {
             cx.cover("small_order_R", en);
         }
     }
+    // ------------------------------------------------ mixed-order public keys A + T (T of order 2, 4 or 8)
+    // With an honest secret scalar a, R = rB and S = r + k*a, the cofactorless equation holds for the key A + T exactly
+    // when k*T is the identity. libsodium (which only refuses *small-order* keys) then accepts; a verifier that
+    // demands torsion-free keys, or multiplies by the cofactor, decides differently.
+    {
+        use curve25519_dalek::constants::ED25519_BASEPOINT_POINT as B;
+        use curve25519_dalek::edwards::CompressedEdwardsY;
+        use curve25519_dalek::scalar::Scalar;
+        let nmix = cx.tier.pick(2usize, 24, 400);
+        let torsion: Vec<(String, curve25519_dalek::edwards::EdwardsPoint)> = small.iter().filter(|(n, _)| !n.contains("identity") && !n.contains("noncanonical") && !n.contains("signbit") || n == "order8a|signbit").filter_map(|(n, e)| CompressedEdwardsY(*e).decompress().map(|p| (n.clone(), p))).collect();
+        for i in 0..nmix {
+            idx += 1;
+            if !cx.mine(idx) {
+                continue;
+            }
+            let mut rng = cx.rng.fork(idx);
+            let (tn, t) = &torsion[i % torsion.len()];
+            let seed: [u8; 32] = rng.arr();
+            let hs = na::sha512(&seed);
+            let mut a_bytes: [u8; 32] = hs[..32].try_into().unwrap();
+            a_bytes[0] &= 248;
+            a_bytes[31] &= 127;
+            a_bytes[31] |= 64;
+            let a = Scalar::from_bytes_mod_order(a_bytes);
+            let pk_mixed = (a * B + t).compress().to_bytes();
+            let r = Scalar::from_bytes_mod_order_wide(&rng.arr::<64>());
+            let big_r = (r * B).compress().to_bytes();
+            cx.key(&format!("mixed {} {}", tn, i));
+            // one message with k*T = O (libsodium accepts) and one with k*T != O (both reject)
+            let mut done = (false, false);
+            for ctr in 0u32..200 {
+                let mut m = b"mixed-order key ".to_vec();
+                m.extend_from_slice(&ctr.to_le_bytes());
+                let mut h = Vec::new();
+                h.extend_from_slice(&big_r);
+                h.extend_from_slice(&pk_mixed);
+                h.extend_from_slice(&m);
+                let k = Scalar::from_bytes_mod_order_wide(&na::sha512(&h));
+                let s = r + k * a;
+                let mut sig = [0u8; 64];
+                sig[..32].copy_from_slice(&big_r);
+                sig[32..].copy_from_slice(s.as_bytes());
+                let kt_is_identity = (k * t).compress().to_bytes() == CompressedEdwardsY([1, 0, 0, 0, 0, 0, 0, 0, 0, 0, 0, 0, 0, 0, 0, 0, 0, 0, 0, 0, 0, 0, 0, 0, 0, 0, 0, 0, 0, 0, 0, 0]).to_bytes();
+                if kt_is_identity && !done.0 {
+                    decide(cx, "mixed_order_public_key(k*T=identity)", false, &sig, &m, &pk_mixed, false);
+                    done.0 = true;
+                    cx.cover("mixed_order_T", tn);
+                } else if !kt_is_identity && !done.1 {
+                    decide(cx, "mixed_order_public_key(k*T!=identity)", false, &sig, &m, &pk_mixed, true);
+                    done.1 = true;
+                }
+                if done.0 && done.1 {
+                    break;
+                }
+            }
+        }
+    }
     if cx.shard == 0 {
         cx.sample(json!({"family":"small_order_encodings","encodings":small.iter().map(|(n, e)| json!({"name":n,"hex":hx(e)})).collect::<Vec<_>>()}));
     }
